@@ -16,10 +16,10 @@ def run(chk, replay=None):
     if replay is not None and replay.get('m') == 'trace':
         return file_common.run_traces(chk, lambda e: e['a'] == 'Open', 1, 0, replay=replay)
     t = 't' if chk.thorough else 'q'
-    cfgs = ['c02%s_%s' % (x, t) for x in 'abcdefg']
+    cfgs = ['c02%s_%s' % (x, t) for x in 'abcdefghi']
     sims = [('all', 6000 if chk.thorough else 400, 35)]
     judge = lambda r: r['step']['a'] == 'Open'
-    chk.rule = ('one case per Open transition after every history (<= 3/4 creations, history length bound) of 2 universes covering all entity kinds plus 5 focused universes with a churn counter (containers emptied and refilled, links replaced, dimensions / features / properties deleted and re-created before the reopen) '
+    chk.rule = ('one case per Open transition after every history (<= 3/4 creations, history length bound) of 2 universes covering all entity kinds plus 7 focused universes with a churn counter (containers emptied and refilled, links replaced, dimensions / features / properties deleted and re-created before the reopen) '
                 'kinds (BFS exhaustive within the bounds) plus Open steps of random behaviours over the whole vocabulary (9 creations, nesting); '
                 'full observation compared after reopen in rw and ro mode')
     file_common.run_file_check(chk, cfgs, sims, judge=judge, replay=replay, opts={'ignore_handles': True, 'touch_retained': True},  coverage=['Open', 'pre:Close', 'pre:SetAttr', 'pre:AppendDim', 'pre:AddLink', 'pre:SetOne', 'pre:Delete'])
